@@ -13,7 +13,7 @@ import z3
 
 from pyvc.core import T, LoopSpec
 from pyvc.spec import Clause, Contract, RaiseClause
-from pyvc.values import And_, Implies_, Not_, Or_
+from pyvc.values import And_, Implies_, Not_, Or_, interval_view
 
 from cfdppy.handler.dest import LostSegmentTracker
 
@@ -26,8 +26,7 @@ def D(r):
 
 
 def view(d, x):
-    k = z3.FreshInt("vk")
-    return z3.Exists([k], z3.And(d.dom[k], k <= x, x < d.val[k]))
+    return interval_view(d, x)
 
 
 def tr_wf(d):
@@ -136,4 +135,100 @@ CONTRACTS.append(Contract(
     ],
     raises=[RaiseClause("C18.straddle_refused", ValueError, when=_straddles, iff=True, props=PROPS, modifies=[])],
     loops={0: LoopSpec(_rm_loop_inv, modifies=[], props=PROPS)},
+))
+
+
+# ---------------------------------------------------------------------------------------------- coalesce
+def _as_pl(cell):
+    from pyvc.values import ListCell, SPairList
+    items = cell.items
+    if isinstance(items, list):
+        pl = SPairList.empty()
+        for p in items:
+            pl = pl.append(p)
+        return pl
+    return items
+
+
+def _co_inv(I, pre, env, idx, n):
+    d = pre.self.lost_segments.d
+    dn = env.self.lost_segments.d
+    L = _as_pl(env.merged_segments)
+    m, mk, mv = L.n, L.a, L.b
+    cs, ce = env.current_start, env.current_end
+    q, j, j2, x = z3.Ints("ci!q ci!j ci!j2 ci!x")
+    i = idx
+    return [
+        ("dict_unchanged", same_map(dn, d) if dn is not d else True),
+        ("cur_nonempty", z3.And(m >= 0, 0 <= cs, cs < ce)),
+        ("cur_end", z3.If(i == 0, z3.And(cs == d.keys[0], ce == d.val[d.keys[0]]), ce == d.val[d.keys[i - 1]])),
+        ("cur_start_is_key", z3.Exists([q], z3.And(0 <= q, q <= z3.If(i == 0, 0, i - 1), cs == d.keys[q]))),
+        ("cur_in_view", z3.ForAll([x], z3.Implies(z3.And(cs <= x, x < ce), view(d, x)))),
+        ("merged_nonempty", z3.ForAll([j], z3.Implies(z3.And(0 <= j, j < m), z3.And(0 <= mk[j], mk[j] < mv[j])))),
+        ("merged_in_view", z3.ForAll([j, x], z3.Implies(z3.And(0 <= j, j < m, mk[j] <= x, x < mv[j]), view(d, x)))),
+        ("processed_covered", z3.ForAll([q], z3.Implies(z3.And(0 <= q, q < i), z3.Or(
+            z3.Exists([j], z3.And(0 <= j, j < m, mk[j] <= d.keys[q], d.val[d.keys[q]] <= mv[j])),
+            z3.And(cs <= d.keys[q], d.val[d.keys[q]] <= ce))))),
+        ("same_key_grows", z3.ForAll([j, j2], z3.Implies(z3.And(0 <= j, j < j2, j2 < m, mk[j] == mk[j2]), mv[j] <= mv[j2]))),
+        ("same_key_as_cur", z3.ForAll([j], z3.Implies(z3.And(0 <= j, j < m, mk[j] == cs), mv[j] <= ce))),
+        ("distinct_separated", z3.ForAll([j, j2], z3.Implies(z3.And(0 <= j, j < j2, j2 < m, mk[j] != mk[j2]), mv[j] < mk[j2]))),
+        ("distinct_before_cur", z3.ForAll([j], z3.Implies(z3.And(0 <= j, j < m, mk[j] != cs), mv[j] < cs))),
+        ("keys_le_cur", z3.ForAll([j], z3.Implies(z3.And(0 <= j, j < m), mk[j] <= cs))),
+    ]
+
+
+def _co_lemmas():
+    """Proof steps from the loop invariant (over the merged pair list) to the view of dict(merged)."""
+    q, j, x, k = z3.Ints("cl!q cl!j cl!x cl!k")
+
+    def meta(n):
+        return D(n).meta
+
+    def covered(o, n, r):
+        m = meta(n)
+        if m is None:
+            return None
+        L, d = m["pairs"], D(o)
+        return z3.ForAll([q], z3.Implies(z3.And(0 <= q, q < d.n), z3.Exists([j], z3.And(
+            0 <= j, j < L.n, L.a[j] <= d.keys[q], d.val[d.keys[q]] <= L.b[j]))))
+
+    def pairs_in_view(o, n, r):
+        m = meta(n)
+        if m is None:
+            return None
+        L = m["pairs"]
+        return z3.ForAll([j, x], z3.Implies(z3.And(0 <= j, j < L.n, L.a[j] <= x, x < L.b[j]), view(D(o), x)))
+
+    def last_is_largest(o, n, r):
+        m = meta(n)
+        if m is None:
+            return None
+        L = m["pairs"]
+        return z3.ForAll([j], z3.Implies(z3.And(0 <= j, j < L.n), z3.And(D(n).dom[L.a[j]], L.b[j] <= D(n).val[L.a[j]])))
+
+    def sub(o, n, r):
+        return z3.ForAll([x], z3.Implies(view(D(n), x), view(D(o), x)))
+
+    def sup(o, n, r):
+        return z3.ForAll([x], z3.Implies(view(D(o), x), view(D(n), x)))
+
+    return [("covered", covered), ("pairs_in_view", pairs_in_view), ("last_is_largest", last_is_largest),
+            ("subset", sub), ("superset", sup)]
+
+
+def _no_adjacent(d):
+    k, k2 = z3.Ints("na!k na!k2")
+    return z3.ForAll([k, k2], z3.Implies(z3.And(d.dom[k], d.dom[k2], k < k2), d.val[k] < k2))
+
+
+CONTRACTS.append(Contract(
+    P + "coalesce_lost_segments", arg_types=SELF, props=PROPS, modifies=["self.lost_segments"],
+    requires=[("wf", lambda o: tr_wf(D(o)))],
+    ensures=[
+        Clause("C18.co_view_same", lambda o, n, r: z3.ForAll([X], view(D(n), X) == view(D(o), X)), PROPS,
+               lemmas=_co_lemmas()),
+        Clause("C18.co_wf", lambda o, n, r: tr_wf(D(n)), PROPS),
+        Clause("C18.co_no_adjacent", lambda o, n, r: z3.Implies(D(o).n > 1, _no_adjacent(D(n))), PROPS),
+    ],
+    loops={0: LoopSpec(_co_inv, modifies=[], props=PROPS, local_types={"merged_segments": T.PairList})},
 ))
